@@ -388,7 +388,13 @@ impl Property for C05 {
             1 => {
                 let n = t.below(24);
                 let alpha = ['/', '?', '*', '$', ':', '<', '>', '(', ')', '[', ']', '{', '}', ',', '\\', '-', '!', 'a', '1', '0', 'é', 'i'];
-                let s: String = (0..n).map(|_| t.pick(&alpha)).collect();
+                // characters whose upper- or lower-case form has another length in UTF-8 (sizes
+                // of cased text are computed during the build), mostly behind a flag
+                let odd = ['ı', 'İ', 'ſ', 'ß', 'ŉ', 'ɐ', 'ﬁ', 'ﬆ', 'Ⱥ', 'ⱦ', 'ι', 'K', '\u{feff}', '\t'];
+                let mut s: String = (0..n).map(|_| if t.chance(24) { t.pick(&odd) } else { t.pick(&alpha) }).collect();
+                if t.chance(40) {
+                    s = format!("(?i){}{}", t.pick(&odd), s);
+                }
                 Case { text: format!("\u{2}{}", s), est: None, paths }
             },
             2 => {
